@@ -578,6 +578,128 @@ theorem map_owned (v : Volume) (surface : Nat) (s : Nat)
     exact ⟨hb e this.1, by simpa using this.2⟩
 
 
+/-! ### sector map: any volume, whole file systems -/
+
+theorem has_setRangeOff (n c : Nat) (l : Bytes) (m : SecMap) (t : Nat) :
+    has ((List.range n).foldl (fun m s => m.set (s + c) l) m) t =
+      (has m t || decide (c ≤ t ∧ t < c + n)) := by
+  induction n with
+  | zero =>
+    rw [Bool.eq_iff_iff]
+    by_cases hm : has m t = true <;> simp [hm] <;> omega
+  | succ n ih =>
+    rw [List.range_succ, List.foldl_append]
+    simp only [List.foldl_cons, List.foldl_nil, has_set, ih]
+    rw [Bool.eq_iff_iff]
+    by_cases hm : has m t = true <;> simp [hm] <;> omega
+
+theorem has_fileFoldAt (o : Nat) (ho : o + 2048 ≤ 4294967296) (lab : Entry → Bytes) (F : List Entry)
+    (hF : ∀ e ∈ F, (∀ i, e.m i < 256) ∧ e.fileLength ≠ 0) (m : SecMap) (t : Nat) :
+    has (F.foldl (fun m e =>
+          List.foldl (fun m k => m.insert ((o + e.startSector) % 4294967296 + k) (lab e))
+            m (List.range ((o + e.lastSector + 1) % 4294967296 - (o + e.startSector) % 4294967296))) m) t =
+      (has m t || F.any (fun e => decide (o + e.startSector ≤ t) &&
+          decide (t < o + e.startSector + Spec.sectorsFor e.fileLength))) := by
+  induction F generalizing m with
+  | nil => simp
+  | cons e rest ih =>
+    have he := hF e (by simp)
+    have hst := entry_stop e he.1 he.2
+    have hbd := entry_bounds e he.1
+    have hsz : Spec.sectorsFor e.fileLength < 1025 := by unfold Spec.sectorsFor; omega
+    unfold ext Extent.stop at hst
+    simp only [] at hst
+    rw [List.foldl_cons, ih (fun x hx => hF x (by simp [hx]))]
+    rw [show o + e.lastSector + 1 = o + e.startSector + Spec.sectorsFor e.fileLength by omega,
+      Nat.mod_eq_of_lt (by omega : o + e.startSector < 4294967296),
+      Nat.mod_eq_of_lt (by omega : o + e.startSector + Spec.sectorsFor e.fileLength < 4294967296),
+      Nat.add_sub_cancel_left, has_insertRange]
+    simp [Bool.or_assoc]
+
+/-- the sectors a volume claims in the sector map: its catalogue sectors (at
+    `catLoc`, absolute) and the extent of each non-empty file (relative to `origin`) -/
+def volOwns (v : Volume) (s : Nat) : Bool :=
+  decide (v.catLoc ≤ s ∧ s < v.catLoc + v.cat.catalogSectors) ||
+  v.cat.entries.any (fun e => e.fileLength != 0 && decide (v.origin + e.startSector ≤ s) &&
+    decide (s < v.origin + e.startSector + Spec.sectorsFor e.fileLength))
+
+theorem has_volumeMap (surface : Nat) (multi : Bool) (label : Option Nat) (v : Volume) (m : SecMap) (s : Nat)
+    (hb : ∀ e ∈ v.cat.entries, ∀ i, e.m i < 256)
+    (hc : v.catLoc + v.cat.catalogSectors ≤ 4294967296) (ho : v.origin + 2048 ≤ 4294967296) :
+    has (volumeMapSectors surface multi label v m) s = (has m s || volOwns v s) := by
+  unfold volumeMapSectors volOwns
+  simp only []
+  rw [has_fileFoldAt v.origin ho (fun e => fileLabel multi label e.directory e.nameStr)]
+  · rw [foldl_range_congr _ (fun m s => m.set (s + v.catLoc) (match label with
+          | some l => strBytes "*CAT:" ++ decU surface ++ [l]
+          | none => strBytes "catalog")) _
+        (fun a s hs => by
+          have h : (s + v.catLoc) % 4294967296 = s + v.catLoc := Nat.mod_eq_of_lt (by omega)
+          exact congrArg (fun x => SecMap.set a x _) h)]
+    rw [has_setRangeOff, List.any_filter]
+    simp [Bool.and_assoc, Bool.or_assoc]
+  · intro e he
+    have := List.mem_filter.mp he
+    exact ⟨hb e this.1, by simpa using this.2⟩
+
+theorem map_owned_general (surface : Nat) (multi : Bool) (label : Option Nat) (v : Volume) (m : SecMap) (s : Nat)
+    (hb : ∀ e ∈ v.cat.entries, ∀ i, e.m i < 256)
+    (hc : v.catLoc + v.cat.catalogSectors ≤ 4294967296) (ho : v.origin + 2048 ≤ 4294967296) :
+    ((volumeMapSectors surface multi label v m).at s).isSome =
+      ((m.at s).isSome ||
+       decide (v.catLoc ≤ s ∧ s < v.catLoc + v.cat.catalogSectors) ||
+       v.cat.entries.any (fun e => e.fileLength != 0 && decide (v.origin + e.startSector ≤ s) &&
+         decide (s < v.origin + e.startSector + Spec.sectorsFor e.fileLength))) := by
+  rw [isSome_at, isSome_at, has_volumeMap surface multi label v m s hb hc ho, Bool.or_assoc]
+  rfl
+
+theorem has_volsFold (surface : Nat) (multi : Bool) (vols : List (Option Nat × Volume))
+    (hv : ∀ p ∈ vols, (∀ e ∈ p.2.cat.entries, ∀ i, e.m i < 256) ∧
+        p.2.catLoc + p.2.cat.catalogSectors ≤ 4294967296 ∧ p.2.origin + 2048 ≤ 4294967296)
+    (m : SecMap) (s : Nat) :
+    has (vols.foldl (fun m (p : Option Nat × Volume) => volumeMapSectors surface multi p.1 p.2 m) m) s =
+      (has m s || vols.any (fun p => volOwns p.2 s)) := by
+  induction vols generalizing m with
+  | nil => simp
+  | cons p rest ih =>
+    have hp := hv p (by simp)
+    rw [List.foldl_cons, ih (fun x hx => hv x (by simp [hx])), has_volumeMap _ _ _ _ _ _ hp.1 hp.2.1 hp.2.2]
+    simp [Bool.or_assoc]
+
+theorem map_owned_fs (fs : FileSystem) (surface : Nat) (s : Nat)
+    (hv : ∀ p ∈ fs.vols, (∀ e ∈ p.2.cat.entries, ∀ i, e.m i < 256) ∧
+        p.2.catLoc + p.2.cat.catalogSectors ≤ 4294967296 ∧ p.2.origin + 2048 ≤ 4294967296) :
+    ((sectorMapOf fs surface).at s).isSome =
+      ((fs.fmt == Format.OpusDDOS && (s == 16 || s == 17)) ||
+       fs.vols.any (fun p =>
+         decide (p.2.catLoc ≤ s ∧ s < p.2.catLoc + p.2.cat.catalogSectors) ||
+         p.2.cat.entries.any (fun e => e.fileLength != 0 && decide (p.2.origin + e.startSector ≤ s) &&
+           decide (s < p.2.origin + e.startSector + Spec.sectorsFor e.fileLength)))) := by
+  rw [isSome_at]
+  unfold sectorMapOf
+  simp only []
+  have hfold := has_volsFold surface (decide (fs.vols.length > 1)) fs.vols hv [] s
+  have hnil : has [] s = false := rfl
+  rw [hnil, Bool.false_or] at hfold
+  unfold volOwns at hfold
+  cases hf : (fs.fmt == Format.OpusDDOS)
+  · simp only [Bool.false_and, Bool.false_or]
+    rw [if_neg (by simp)]
+    exact hfold
+  · rw [if_pos rfl, has_set, has_set, hfold]
+    rw [Bool.eq_iff_iff]
+    simp only [Bool.true_and, Bool.or_eq_true, beq_iff_eq]
+    constructor
+    · rintro (h | h | h)
+      · exact Or.inl (Or.inr h.symm)
+      · exact Or.inl (Or.inl h.symm)
+      · exact Or.inr h
+    · rintro ((h | h) | h)
+      · exact Or.inr (Or.inl h.symm)
+      · exact Or.inl h.symm
+      · exact Or.inr (Or.inr h)
+
+
 /-! ### extract-unused -/
 
 def usStep (g : Nat → Option Bytes) (st : List (Nat × Nat) × Option Nat) (sec : Nat) : List (Nat × Nat) × Option Nat :=
